@@ -181,7 +181,7 @@ pub fn siqs(
         rels.truncate(fbase.len() + relations::MIN_KERNEL_SIZE)
     }
     #[cfg(yamaquasi_verif)] crate::verif::ev(|| format!("\"op\":\"finalize\",\"st\":\"siqs\",\"gap\":{},\"len\":{},\"fb\":{}", s.gap.load(Ordering::Relaxed), rels.len(), fbase.len()));
-    if s.gap.load(Ordering::Relaxed) != 0 && rels.len() <= fbase.len() {
+    if !s.done.load(Ordering::Relaxed) && rels.len() <= fbase.len() {
         panic!("Internal error: not enough smooth numbers with selected parameters (n={n})");
     }
     let rels = rels.into_inner();
